@@ -233,8 +233,8 @@ def payloadOf (l : SvLine) : Option (Bytes × Bool) :=
     | _ => none
   else some (l.wire, true)
 
-/-- Is the JSON body one that the code accepts only because it never looks past
-the first value (finding K10a)? -/
+/-- Is the JSON body a complete well-typed value followed by non-whitespace
+bytes (the region of the repaired finding K10a; used as a class label)? -/
 def jsonTrailing (l : SvLine) (e : Ep) (payload : Bytes) : Bool :=
   match e.body with
   | some (sh, .json) =>
@@ -281,7 +281,7 @@ def verdict (l : SvLine) (e : Ep) (payload : Bytes) (strict : Bool) : Verdict :=
           match shape sh with
           | none => .refused 500
           | some fs =>
-            let json := if strict then JsonBody.decodeStrict fs else JsonBody.decodeAsIs fs
+            let json := if strict then JsonBody.decodeStrict fs else JsonBody.decode fs
             match loadBody json (extractQuery (.struct fs)) ect bodyCap hdr payload with
             | .error _ => .refused 400
             | .ok v =>
